@@ -85,6 +85,9 @@ pub enum Ret {
     None,
     EvenIds,
     Alternate,
+    /// keep only the ids of at least one group width: the elements inserted first (the front of every probe
+    /// sequence) go, the ones displaced behind them stay
+    KeepHigh,
 }
 #[derive(Clone, Copy, Debug, PartialEq, Eq, Hash, Serialize, Deserialize)]
 pub enum XList {
@@ -182,7 +185,7 @@ impl Alphabet {
             reserve: vec![Res::One, Res::Half, Res::Double],
             shrink_to_fit: true,
             shrink_to: vec![Shr::Zero, Shr::Len, Shr::LenPlus1, Shr::CapMinus1, Shr::CapPlus1],
-            retain: vec![Ret::All, Ret::None, Ret::EvenIds, Ret::Alternate],
+            retain: vec![Ret::All, Ret::None, Ret::EvenIds, Ret::Alternate, Ret::KeepHigh],
             clone: true,
             raw_entry: false,
             rustc_entry: false,
@@ -947,6 +950,7 @@ impl<K: KeyT, V: ValT> MapHarness<K, V> {
                         Ret::None => false,
                         Ret::EvenIds => k.id() % 2 == 0,
                         Ret::Alternate => visit % 2 == 0,
+                        Ret::KeepHigh => k.id() as usize >= hashbrown::verif::GROUP_WIDTH,
                     };
                     visit += 1;
                     if keep {
